@@ -9,6 +9,7 @@ C07 driver.
   c07driver               line protocol on stdin: one program of the recovery model per line, forms separated by `|`:
                             P<n> push   O pop   D<g> define   C[ .. ] call   H[ handler ][ body ] closure handler
                             B[ body ] handler that is not a closure   K[ body ] call/cc frame   F<e> failing primitive
+                            A callback of the wrong arity called by a native higher-order procedure
                           answer: `<outcome> frames=<n> stack=<n> globals=<g>:<v>,...` after `runForms` on a fresh thread.
 -/
 import SteelVerif.C07.LemmasArms
@@ -42,7 +43,8 @@ def tablesReport : List String :=
       | some r => showVerdict r.verdict
       | none => "unclassified"
     s!"site {v} {s.file} {s.line} {s.fn} {s.kind}"
-  b ++ u ++ un ++ st ++ re ++ all ++ [s!"sites {Gen.sites.length} " ++ " ".intercalate counts]
+  b ++ u ++ un ++ st ++ re ++ all ++ [s!"sites {Gen.sites.length} " ++ " ".intercalate counts,
+    s!"unwind testFirst={Gen.unwindTestFirst} nestedTestFirst={Gen.nestedTestFirst} clears={Gen.unwindClears} windowOpen={windowOpen}"]
 
 /-! ### parsing programs of the recovery model -/
 
@@ -63,6 +65,7 @@ def parseSeq : Nat → List Char → Option (List Code × List Char)
     | 'O' :: rest => (parseSeq fuel rest).map fun (c, r') => (.pop :: c, r')
     | 'D' :: rest => let (n, r) := takeNat rest; (parseSeq fuel r).map fun (c, r') => (.define n :: c, r')
     | 'F' :: rest => let (n, r) := takeNat rest; (parseSeq fuel r).map fun (c, r') => (.fail n :: c, r')
+    | 'A' :: rest => (parseSeq fuel rest).map fun (c, r') => (.callbackArity :: c, r')
     | 'C' :: '[' :: rest =>
       match parseSeq fuel rest with
       | some (body, ']' :: r) => (parseSeq fuel r).map fun (c, r') => (.call body :: c, r')
@@ -103,7 +106,7 @@ def runLine (line : String) : String :=
   | some forms =>
     let (o, t) := runForms 100000 forms {}
     let gs := ",".intercalate (t.globals.map fun (g, v) => s!"{g}:{v}")
-    s!"{showOutcome o} frames={t.frames.length} stack={t.stack.length} globals={gs}"
+    s!"{showOutcome o} frames={t.frames.length} stack={t.stack.length} lost={t.lost} globals={gs}"
 
 partial def loop (h : IO.FS.Stream) : IO Unit := do
   let line ← h.getLine
